@@ -1060,6 +1060,15 @@ func (p *RPCCompiler) processRepeatedField(message protoref.Message, fd protoref
 			}
 
 			list.Append(protoref.ValueOfMessage(fieldMsg))
+		case DataTypeEnum:
+			// Enum values need the GraphQL -> protobuf mapping; setValueForKind has no enum case
+			// and would yield an invalid value that makes list.Append panic.
+			val, err := p.getEnumValue(rpcField.EnumName, element)
+			if err != nil {
+				return err
+			}
+
+			list.Append(val)
 		default:
 			list.Append(p.setValueForKind(field.Type, element))
 		}
